@@ -719,12 +719,12 @@ def concile_table(check, repo, rules):
         kws = dict(v[4])
         # left operand wins
         if base == L and 'name' not in kws and 'kind' not in kws:
-            check.holds(rules['leftwins'], st, 'result keeps name and kind of the left operand', key=key, guards=lits_text(p.lits))
+            check.holds(rules.get('leftwins'), st, 'result keeps name and kind of the left operand', key=key, guards=lits_text(p.lits))
         elif base == R or 'name' in kws or 'kind' in kws:
-            check.violation(rules['leftwins'], st, 'conciled parameter does not keep name/kind of the left operand (%s)' % show(v)[:120],
+            check.violation(rules.get('leftwins'), st, 'conciled parameter does not keep name/kind of the left operand (%s)' % show(v)[:120],
                             key=key, guards=lits_text(p.lits), witness="merge(s('a, /'), s('b, /')) must be (a, /)")
         else:
-            check.inconclusive(rules['leftwins'], st, 'base of replace() not understood', key=key)
+            check.inconclusive(rules.get('leftwins'), st, 'base of replace() not understood', key=key)
         other = R if base == L else L
         # default column
         dl, dr = lits.get(('has_default', L)), lits.get(('has_default', R))
